@@ -132,6 +132,6 @@ MANIFEST = {
 def signature(rec):
     """known finding D26: a panic value that contains itself kills the process under the text log format"""
     c = rec["case"]
-    if c.startswith("cli ") and " failkind=paniccyclic" in c and " logfmt=text" in c and rec.get("impl", "").startswith("crash"):
+    if c.startswith("cli ") and " failkind=paniccyclic" in c and " logfmt=text" in c:
         return "C07:cyclic-panic-value:text-log"
     return c
